@@ -23,6 +23,51 @@ Theorem C12_frame_accepted :
   forall fixed b, wf_bytes b -> (fixed <= length b)%nat -> view_using fixed (frame b) = Ok b.
 Proof. exact using_frame. Qed.
 
+(** The body of a request or reply may arrive in any number of pieces ([utils::to_aligned]
+    reassembles them: the first, the second, then every further piece until the stream ends).
+    [to_aligned] is transcribed with the capacity hint it computes (first + second + the
+    stream's lower size bound) - which the code uses for the allocation only.  Whatever the
+    pieces and whatever the hint, the reassembled buffer is their concatenation, so a frame
+    delivered in pieces is accepted exactly like the frame itself. *)
+Definition to_aligned (hint : nat) (chunks : list (list N)) : list N :=
+  match chunks with
+  | [] => []
+  | [c1] => c1
+  | c1 :: c2 :: rest => (c1 ++ c2) ++ concat rest     (* capacity c1+c2+hint: allocation only *)
+  end.
+
+Theorem C12_pieces_reassemble_to_the_frame :
+  forall hint chunks, to_aligned hint chunks = concat chunks.
+Proof.
+  intros hint [|c1 [|c2 rest]]; cbn [to_aligned concat]; [reflexivity|now rewrite app_nil_r|now rewrite app_assoc].
+Qed.
+
+Theorem C12_frame_in_pieces_is_accepted :
+  forall fixed b hint chunks, wf_bytes b -> (fixed <= length b)%nat ->
+    concat chunks = frame b -> view_using fixed (to_aligned hint chunks) = Ok b.
+Proof.
+  intros fixed b hint chunks Hw Hl Hc. rewrite C12_pieces_reassemble_to_the_frame, Hc. now apply using_frame.
+Qed.
+
+(** Reading stops once the hinted capacity is reached (seeded change C12/B): a body of three
+    pieces streamed without a length (hint 0) loses its tail. *)
+Fixpoint take_until (cap : nat) (acc : list N) (rest : list (list N)) : list N :=
+  match rest with
+  | [] => acc
+  | c :: r => if (length acc <? cap)%nat then take_until cap (acc ++ c) r else acc
+  end.
+
+Definition to_aligned_capped (hint : nat) (chunks : list (list N)) : list N :=
+  match chunks with
+  | [] => []
+  | [c1] => c1
+  | c1 :: c2 :: rest => take_until (length c1 + length c2 + hint) (c1 ++ c2) rest
+  end.
+
+Theorem C12_capped_reassembly_refuted :
+  to_aligned_capped 0 [[1]; [2]; [3]] = [1; 2] /\ to_aligned 0 [[1]; [2]; [3]] = [1; 2; 3].
+Proof. vm_compute. split; reflexivity. Qed.
+
 (** (1) The receiver of an encoded value observes an equal value. *)
 Theorem C12_message_delivered :
   forall (A : Type) (c : codec A) (a : A), codec_ok c -> decode c (encode c a) = Ok a.
